@@ -782,6 +782,11 @@ func everyCellFeedsKernel(ctx *Ctx, r *Report, rule string, fn *ssa.Function, ke
 		if !ok {
 			continue
 		}
+		// only a branch that can get to the next cell (or out of the loop) without the kernel
+		// call matters; the test of an inner loop that fills the corner arrays cannot
+		if !reachesWithout(ld, x, kb) {
+			continue
+		}
 		nBranches++
 		if !signOnly(ifi.Cond, map[ssa.Value]bool{}) {
 			bad += fmt.Sprintf(" the branch at %s decides whether the cell reaches %s and is not a test of signs;", ctx.pos(branchPos(x, ifi)), kernel)
@@ -846,4 +851,28 @@ func postDominatedWithin(ld *loopDesc, a, b *ssa.BasicBlock) bool {
 		return len(x.Succs) > 0
 	}
 	return walk(a)
+}
+
+// reachesWithout: from block x some path inside the loop reaches the back edge or leaves the loop
+// without passing through block avoid.
+func reachesWithout(ld *loopDesc, x, avoid *ssa.BasicBlock) bool {
+	seen := map[*ssa.BasicBlock]bool{x: true}
+	work := []*ssa.BasicBlock{x}
+	for len(work) > 0 {
+		b := work[0]
+		work = work[1:]
+		for _, su := range b.Succs {
+			if su == avoid {
+				continue
+			}
+			if su == ld.header || !ld.in[su] {
+				return true
+			}
+			if !seen[su] {
+				seen[su] = true
+				work = append(work, su)
+			}
+		}
+	}
+	return false
 }
